@@ -81,6 +81,12 @@ class Infeasible(Exception): pass
 class EnumV:
     """enumerate(<array of symbolic length>)"""
     def __init__(self, arr, start=0): self.arr, self.start = arr, start
+EXPECTED_LOOPS = {}      # set by the checker from baseline/<P>.loops.json: {'sigs': {'qual#k': header text}, 'nloops': {qual: n}}
+SEEN_LOOPS = {}          # filled while loops are resolved (written with the baseline)
+def loop_signature(s):
+    if isinstance(s, ast.For): return 'for ' + ast.unparse(s.target) + ' in ' + ast.unparse(s.iter)
+    return 'while ' + ast.unparse(s.test)
+
 class Unsupported(Exception):
     """construct outside the interpretable subset"""
 
@@ -1010,13 +1016,31 @@ class Interp:
 
     # ----- loops
     def loop_ordinal(self, F, s):
+        """ordinal (static source order) of a loop in its function -- the key of its sidecar contract.  Guard against ordinal drift: the signature (loop
+        header text) of every contracted loop is recorded with the baseline; when the loop now found at an ordinal has another signature than recorded, the
+        contract meant for THIS loop is looked up by signature (an edit that adds, removes or reorders other loops must not attach a contract to the wrong
+        loop); a pure rename (same number of loops) keeps the ordinal; anything else leaves the interpretable subset (undecided, never a verdict)."""
         fn = F.get('$func')
         key = id(fn.node) if fn else None
         if key not in self.loop_ord_cache:
             loops = [n for n in ast.walk(fn.node) if isinstance(n, (ast.For, ast.While))]
             loops.sort(key=lambda n: (n.lineno, n.col_offset))
-            self.loop_ord_cache[key] = {id(n): k for k, n in enumerate(loops)}
-        return self.loop_ord_cache[key][id(s)]
+            self.loop_ord_cache[key] = ({id(n): k for k, n in enumerate(loops)}, len(loops))
+        ords, nloops = self.loop_ord_cache[key]
+        k = ords[id(s)]
+        qual = F['$qual']
+        if (qual, k) not in self.loop_contracts and not any(q == qual for q, _ in self.loop_contracts): return k
+        sig = loop_signature(s)
+        SEEN_LOOPS.setdefault('sigs', {})[f'{qual}#{k}'] = sig; SEEN_LOOPS.setdefault('nloops', {})[qual] = nloops
+        exp = EXPECTED_LOOPS.get('sigs', {})
+        mine = exp.get(f'{qual}#{k}')
+        if not exp or mine == sig or not any(key_.startswith(qual + '#') for key_ in exp): return k
+        cands = [int(key_.split('#')[-1]) for key_, e in exp.items() if key_.startswith(qual + '#') and e == sig]
+        if len(cands) == 1:
+            SEEN_LOOPS['sigs'].pop(f'{qual}#{k}', None)
+            return cands[0]
+        if EXPECTED_LOOPS.get('nloops', {}).get(qual) == nloops: return k          # same loops, renamed header
+        raise Unsupported(f"the loops of {qual} changed: no contract can be attached to `{sig}`")
     def s_For(self, s, F):
         it = self.ev(s.iter, F)
         if isinstance(it, RangeV):
